@@ -37,6 +37,8 @@ def arms_st(draw, kinds=("int", "str", "float"), min_size=1, max_size=5):
     kind = draw(st.sampled_from(list(kinds)))
     pool = POOLS[kind]
     n = draw(st.integers(min_size, min(max_size, len(pool))))
+    if max_size >= 4 and draw(st.integers(0, 11)) == 0:
+        n = min(len(pool), max_size + 3)            # now and then more arms than usual
     arms = draw(perm_st(pool))[:n]
     return kind, list(arms)
 
@@ -226,6 +228,8 @@ def grid_value_st(grid):
         return st.integers(-6, 6).map(lambda k: k / 2.0)
     if grid == "small":
         return st.integers(-1, 1)
+    if grid == "f32edge":   # integers just above 2**24: not all representable in single precision (trees use float32)
+        return st.integers(-6, 6).map(lambda k: 16777216 + 3 * k)
     if grid == "real":      # real-valued contexts (two decimals); only for checks that compare with a tolerance
         return st.integers(-300, 300).map(lambda k: k / 100.0)
     raise ValueError(grid)
@@ -274,6 +278,8 @@ class History:
         draw = self.draw
         if n is None:
             n = draw(st.integers(min_rows, max(min_rows, self.max_rows)))
+            if draw(st.integers(0, 14)) == 0:
+                n = n * 4 + 5                       # now and then a batch much larger than usual (> 16 rows)
         arms = self.arms
         if omit is None:
             omit = draw(st.booleans())
@@ -290,6 +296,8 @@ class History:
         draw = self.draw
         if m is None:
             m = draw(st.sampled_from(list(self.query_rows)))
+            if draw(st.integers(0, 11)) == 0:
+                m = draw(st.sampled_from([16, 17, 20, 33]))     # more rows than any worker count (cpu count is 16)
         if self.contextual:
             return draw(contexts_st(m, self.d, self.grid))
         # context-free bandits: None, or 2-D contexts they must ignore
